@@ -997,6 +997,9 @@ func (e *Engine) equal(a, b Value, p token.Pos) string {
 	if bi && !ai {
 		return eq(e.box(a), b.T)
 	}
+	if e.isBseqType(at) || e.isBseqType(bt) {
+		return eq(a.T, b.T)
+	}
 	if isString(at) {
 		return e.strEq(a.T, b.T)
 	}
